@@ -40,6 +40,10 @@ def build(tier, seed):
     for kind, cq, cq2 in ((0, b"", b""), (1, C, b""), (2, b"", b""), (3, A, C)):
         qs.append(mc.mq("merger_kind%d_abandoned" % kind, src, mode=0, kind=kind, cq=cq, cq2=cq2, ops="n"))
     qs.append(mc.mq("merger_mergefail", [[A], [A], [A, B]], mode=3, failat=1, ops="nn"))
+    # lookups for a key one source lacks although its range spans it: that source's iterator yields nothing
+    src2 = [[A, C, b"e"], [B, b"d", b"f"]]
+    for kind, cq, cq2 in ((1, C, b""), (2, C, b""), (3, C, C)):
+        qs.append(mc.mq("merger_kind%d_one_source_empty" % kind, src2, mode=0, kind=kind, cq=cq, cq2=cq2, ops="nn"))
     qs.append(mc.mq("merger_seek_then_abandon", src, mode=0, ops="nSn", ctgt=[A]))
     # writers with refused adds
     qs.append(wc.wq("writer_refusals", [2, 1, 2, 3], [0, 0, 1, 1], [1, 0, 1, 2], ri=2, bs=36, perm=[1, 0, 2, 2, 3, 1], witness=False))
